@@ -347,7 +347,15 @@ def main(argv=None):
                 replayed += 1
                 replay_violations.append({'property': exc.prop, 'sig': exc.sig, 'msg': f'[saved case replays/{prop}/{name}] ' + exc.msg,
                                           'case': data.get('case', data), 'log': getattr(exc, 'log', None)})
-            except Exception:  # pylint: disable=broad-except
+            except Exception as exc:  # pylint: disable=broad-except
+                from .interp import library_frame, raised_in_library  # pylint: disable=import-outside-toplevel
+
+                if raised_in_library(exc):
+                    replayed += 1
+                    replay_violations.append({'property': prop, 'sig': f'library-raised:{type(exc).__name__}:{library_frame(exc)}',
+                                              'msg': f'[saved case replays/{prop}/{name}] a valid call raised {exc!r} inside the library',
+                                              'case': data.get('case', data), 'log': None})
+                    continue
                 traceback.print_exc()
                 print(f'HARNESS-ERROR while replaying {name}', file=sys.stderr)
                 return 2
@@ -498,6 +506,15 @@ def replay_main(module, prop, path):
         print(f'VIOLATION property={exc.prop} replay={path}')
         return 1
     except HarnessError:
+        traceback.print_exc()
+        return 2
+    except Exception as exc:  # pylint: disable=broad-except
+        from .interp import library_frame, raised_in_library  # pylint: disable=import-outside-toplevel
+
+        if raised_in_library(exc):
+            print(f'  library-raised:{type(exc).__name__}:{library_frame(exc)}: a valid call raised {exc!r} inside the library')
+            print(f'VIOLATION property={prop} replay={path}')
+            return 1
         traceback.print_exc()
         return 2
     print(f'{prop}: replay of {path} holds')
